@@ -1,7 +1,10 @@
 """C12 -- work-unit lifecycle state machine (structural part)."""
-from abtverif import cfg, seq
-from abtverif.seq import idx, is_call, show, has_if, atomic_cmp
+import re
+
+from abtverif import canon, cfg, seq
+from abtverif.seq import idx, is_call, show, has_if
 from . import common, C02
+from .C03 import _Sel, _field_of, _lvalue_field_of
 
 EXPLANATION = (
     "Decides who may move a work unit between lifecycle states and where requests are honoured.  R1 (role-based "
@@ -38,6 +41,68 @@ TERMINATORS = {"ABTI_ythread_schedule", "ABTI_ythread_callback_exit", "ABTI_ythr
                "ABTI_thread_handle_request_cancel", "xstream_launch_root_ythread"}
 
 
+# Rules are phrased over canonical facts (abtverif.canon): condition labels independent of polarity and
+# of the names of locals, call arguments through canon.expr / canon.rooted, constants looked through
+# locals.  Only record/field names, callee names, enumerators and parameter names (from F.params) occur.
+
+_STATE_TEST = re.compile(r"^ABTD_atomic_(\w+?)_load_int\(&(?:ABTI_thread::state|ABTI_ythread::thread\.state)\) == (\w+)$")
+
+
+_DEPTH = 6   # locals are looked through up to this many copies (canon's default of 3 is too short for alias chains)
+
+
+def _cargs(F, tok):
+    """Canonical (local-name independent) arguments of a call token."""
+    return tuple(canon.expr(F, a, depth=_DEPTH) for a in F.nodes[tok[-1]]["a"])
+
+
+def _cshow(F, toks):
+    out = []
+    for t in toks:
+        if t[0] == "call":
+            out.append("%s(%s)" % (t[1], ",".join(_cargs(F, t))))
+        else:
+            out.append(show([t]))
+    return " ; ".join(out)
+
+
+def _const_of(F, i, depth=3):
+    """Constant value of an argument, looking through locals that hold a constant on every path."""
+    nd = F.nodes[F.strip(i)]
+    if nd.get("cv") is not None:
+        return nd["cv"]
+    if nd.get("k") == "ref" and nd.get("dk") == "var" and depth > 0:
+        d = canon.reaching_def(F, nd["n"], i)
+        if isinstance(d, int) and d >= 0:
+            return _const_of(F, d, depth - 1)
+        ds = canon.reaching_defs(F, nd["n"], i)
+        if ds:
+            vals = set(_const_of(F, d, depth - 1) for d in ds)
+            if len(vals) == 1:
+                return vals.pop()
+    return None
+
+
+def _root_object(F, i):
+    """Name of the variable an access path is rooted at after looking through local pointer aliases
+    (`p = &dummy; p->state` is rooted at `dummy`); None if the root is a call result."""
+    m = re.match(r"^[&*(]*([A-Za-z_]\w*)(\()?", canon.rooted(F, i, depth=_DEPTH))
+    return m.group(1) if m and not m.group(2) else None
+
+
+def _yieldable_label(F):
+    """conds callback (canon mode): 'yieldable(<param>)' for a NULL test of
+    ABTI_thread_get_ythread_or_null(<parameter>)."""
+    params = [p["n"] for p in F.params]
+
+    def conds(text):
+        m = re.match(r"^ABTI_thread_get_ythread_or_null\((\w+)\)$", text)
+        if m and m.group(1) in params:
+            return "yieldable(%s)" % m.group(1)
+        return False
+    return conds
+
+
 def rule_R1(P, rep):
     names = {v: k.replace("ABT_THREAD_STATE_", "") for k, v in P.enum_consts.items() if k.startswith("ABT_THREAD_STATE_")}
     cbs = set(C02._callbacks(P))
@@ -47,20 +112,21 @@ def rule_R1(P, rep):
             nd = F.nodes[nid]
             fn = nd.get("fn") or ""
             if not (fn.startswith("ABTD_atomic_") and "store" in fn and nd["a"] and
-                    F.field_of(nd["a"][0]) == ("ABTI_thread", "state")):
+                    _field_of(F, nd["a"][0]) == ("ABTI_thread", "state")):
                 continue
             n += 1
             val = names.get(F.nodes[F.strip(nd["a"][1])].get("cv"), "?")
-            tgt = F.render(nd["a"][0])
-            base = F.base_var(nd["a"][0])
+            tgt = canon.rooted(F, nd["a"][0], depth=_DEPTH)
+            base = _root_object(F, nd["a"][0])
             why = ""
             ok = False
             if val == "TERMINATED":
                 ok = F.name == "ABTI_thread_terminate"
                 why = "only ABTI_thread_terminate may publish TERMINATED"
             elif val == "BLOCKED":
-                local_dummy = any(dn.get("k") == "decl" and any(v["n"] == base and v["t"] == "ABTI_thread" for v in dn["vars"])
-                                  for dn in F.nodes if dn)
+                local_dummy = base is not None and any(
+                    dn.get("k") == "decl" and any(v["n"] == base and v["t"] == "ABTI_thread" for v in dn["vars"])
+                    for dn in F.nodes if dn)
                 ok = F.name in cbs or local_dummy
                 why = "BLOCKED may only be stored by a post-switch callback (context saved) or into a stack wait-list dummy"
                 if ok and F.name in cbs and "release" not in fn:
@@ -91,7 +157,7 @@ def rule_R1(P, rep):
     rep.need(n >= 25, "only %d stores to ABTI_thread::state found" % n)
     # plain (non-atomic) stores must not exist
     plain = [(F.name, F.loc(i)) for F in P.functions.values() for b, i, lh, rh in F.stores()
-             if F.field_of(lh) == ("ABTI_thread", "state")]
+             if _lvalue_field_of(F, lh) == ("ABTI_thread", "state")]
     rep.ob("R1", "the state field is never written with a plain store", not plain, str(plain), loc="src", site="state-store/plain")
 
 
@@ -115,7 +181,7 @@ def rule_R3(P, rep):
     seen = set()
     for F in sorted(P.functions.values(), key=lambda f: (f.file, f.line)):
         for bid, nid in F.calls("ABTI_thread_handle_request"):
-            v = F.nodes[F.strip(F.nodes[nid]["a"][1])].get("cv")
+            v = _const_of(F, F.nodes[nid]["a"][1])
             seen.add(F.name)
             if F.name not in want:
                 rep.ob("R3", "%s handles requests (allow_termination=%s)" % (F.name, v), False,
@@ -132,34 +198,51 @@ def rule_R3(P, rep):
                site="handle_request/present/%s" % fn)
     # schedule: request handled before running; cancel arm does nothing else
     F = P.fn("ABTI_ythread_schedule", YH)
-    sel = seq.Sel(calls={"ABTI_thread_handle_request", "ABTI_ythread_run_child", "ABTI_thread_terminate", "ABTI_pool_add_thread"},
-                  indirect=True, conds=lambda t: "request_op" in t)
+    sel = _Sel(calls={"ABTI_thread_handle_request", "ABTI_ythread_run_child", "ABTI_thread_terminate", "ABTI_pool_add_thread"},
+                  indirect=True, conds=lambda t: t.startswith("ABTI_thread_handle_request("), canon=True)
     for toks, kind, rv, rtxt in seq.sequences(F, sel):
         if kind != "ret":
             continue
         hr = idx(toks, is_call("ABTI_thread_handle_request"))
         acts = [i for i, t in enumerate(toks) if t[0] in ("call", "icall") and t[1] != "ABTI_thread_handle_request"]
         ok = len(hr) == 1 and all(a > hr[0] for a in acts)
-        rep.ob("R3", "schedule handles the request before acting [%s]" % show(toks)[:160], ok, "", loc=F.file,
+        rep.ob("R3", "schedule handles the request before acting [%s]" % _cshow(F, toks)[:160], ok, "", loc=F.file,
                site="schedule/request-first/%d" % len(toks))
     C = P.fn("ABTI_thread_handle_request_cancel", "src/thread.c")
-    sel = seq.Sel(calls={"ABTI_ythread_resume_joiner", "ABTI_thread_terminate"}, conds=lambda t: t == "p_ythread")
+    tgt = [p["n"] for p in C.params if p["t"].replace(" ", "") == "ABTI_thread*"]
+    rep.need(len(tgt) == 1, "ABTI_thread_handle_request_cancel: target parameter not found")
+    is_ult = "yieldable(%s)" % tgt[0]
+    sel = _Sel(calls={"ABTI_ythread_resume_joiner", "ABTI_thread_terminate"}, conds=_yieldable_label(C), canon=True)
     for toks, kind, rv, rtxt in seq.sequences(C, sel):
         if kind != "ret":
             continue
         rj = idx(toks, is_call("ABTI_ythread_resume_joiner"))
         tm = idx(toks, is_call("ABTI_thread_terminate"))
-        ok = len(tm) == 1 and (not has_if(toks, "p_ythread", True) or (len(rj) == 1 and rj[0] < tm[0]))
-        rep.ob("R3", "cancel releases the joiner before terminating [%s]" % show(toks), ok, "", loc=C.file,
-               site="cancel/%s" % has_if(toks, "p_ythread", True))
+        ok = len(tm) == 1 and (not has_if(toks, is_ult, True) or (len(rj) == 1 and rj[0] < tm[0]))
+        rep.ob("R3", "cancel releases the joiner before terminating [%s]" % _cshow(C, toks), ok, "", loc=C.file,
+               site="cancel/%s" % has_if(toks, is_ult, True))
     rep.min_instances("R3", 18)
 
 
 def rule_R4(P, rep):
     F = P.fn("thread_revive", "src/thread.c")
-    sel = seq.Sel(calls={"ABTI_pool_push", "ABTD_ythread_context_reinit", "ABTI_thread_set_associated_pool"},
+    op = [p["n"] for p in F.params if p["t"] == "thread_pool_op_kind"]
+    unit = [p["n"] for p in F.params if p["t"].replace(" ", "") == "ABTI_thread*"]
+    rep.need(len(op) == 1 and len(unit) == 1, "thread_revive: pool-operation / unit parameters not found")
+    PUSH = P.enum_consts.get("THREAD_POOL_OP_PUSH")
+    push_labels = ("%s == THREAD_POOL_OP_PUSH" % op[0], "%s == %s" % (op[0], PUSH))
+    is_ult = "yieldable(%s)" % unit[0]
+    ylabel = _yieldable_label(F)
+
+    def revive_conds(text):
+        if text in push_labels:
+            return "op==PUSH"
+        if re.search(r"\b%s\b" % re.escape(op[0]), text):
+            return "op?:" + text
+        return ylabel(text)
+    sel = _Sel(calls={"ABTI_pool_push", "ABTD_ythread_context_reinit", "ABTI_thread_set_associated_pool"},
                   fields={"f_thread", "p_arg", "state", "request", "p_last_xstream", "p_parent"},
-                  conds=lambda t: "pool_op" in t or t == "p_ythread")
+                  conds=revive_conds, canon=True)
     READY = P.enum_consts["ABT_THREAD_STATE_READY"]
     n = 0
     for toks, kind, rv, rtxt in seq.sequences(F, sel):
@@ -184,14 +267,14 @@ def rule_R4(P, rep):
         st = [t for t in toks if t[0] == "ast" and t[2] == "ABTI_thread::state"]
         if st and st[0][3] != READY:
             why.append("state reset to %s" % st[0][3])
-        if has_if(toks, "p_ythread", True):
+        if has_if(toks, is_ult, True):
             ri = idx(toks, is_call("ABTD_ythread_context_reinit"))
             if len(ri) != 1 or ri[0] > lim:
                 why.append("ULT context not re-initialised before the push")
-        if (len(push) == 1) != any(t[0] == "if" and "pool_op" in t[1] and t[2] for t in toks):
+        if (len(push) == 1) != has_if(toks, "op==PUSH", True):
             why.append("push does not follow pool_op == PUSH")
-        rep.ob("R4", "thread_revive path [%s]" % show(toks)[:240], not why, "; ".join(why), loc="%s:%d" % (F.file, F.line),
-               site="thread_revive/%d/%s" % (len(push), has_if(toks, "p_ythread", True)))
+        rep.ob("R4", "thread_revive path [%s]" % _cshow(F, toks)[:240], not why, "; ".join(why), loc="%s:%d" % (F.file, F.line),
+               site="thread_revive/%d/%s" % (len(push), has_if(toks, is_ult, True)))
     rep.need(n >= 2, "thread_revive: %d success paths" % n)
     TERM = P.enum_consts["ABT_THREAD_STATE_TERMINATED"]
     T = P.fn("ABT_task_revive", "src/task.c")
@@ -200,22 +283,21 @@ def rule_R4(P, rep):
     for api, file in (("ABT_thread_revive", "src/thread.c"), ("ABT_thread_revive_to", "src/thread.c")):
         A = P.fn(api, file)
 
-        def conds(text, F, node):
-            c = atomic_cmp(F, node, "ABTI_thread::state")
-            if c and c[2] == TERM:
-                return "state%sTERMINATED" % c[1]
+        def conds(text):
+            m = _STATE_TEST.match(text)
+            if m and m.group(2) in ("ABT_THREAD_STATE_TERMINATED", str(TERM)):
+                return "state==TERMINATED"
             return False
-        sel = seq.Sel(calls={"thread_revive", "ABTI_thread_revive"}, conds=conds)
+        sel = _Sel(calls={"thread_revive", "ABTI_thread_revive"}, conds=conds, canon=True)
         n = 0
         for toks, kind, rv, rtxt in seq.sequences(A, sel, max_len=40):
             rv_i = idx(toks, is_call({"thread_revive", "ABTI_thread_revive"}))
             if not rv_i:
                 continue
             n += 1
-            tests = [t for t in toks[:rv_i[0]] if t[0] == "if" and t[1].startswith("state")]
-            ok = bool(tests) and ((tests[-1][1] == "state==TERMINATED" and tests[-1][2]) or
-                                  (tests[-1][1] == "state!=TERMINATED" and not tests[-1][2]))
-            rep.ob("R4", "%s revives only a unit observed TERMINATED" % api, ok, show(toks)[:200], loc=A.file,
+            tests = [t for t in toks[:rv_i[0]] if t[0] == "if" and t[1] == "state==TERMINATED"]
+            ok = bool(tests) and tests[-1][2] is True
+            rep.ob("R4", "%s revives only a unit observed TERMINATED" % api, ok, _cshow(A, toks)[:200], loc=A.file,
                    site="%s/terminated-guard" % api)
         rep.need(n >= 1, "%s never revives" % api)
 
@@ -223,17 +305,16 @@ def rule_R4(P, rep):
 def rule_R5(P, rep):
     for api, file in (("ABT_thread_exit", "src/thread.c"), ("ABT_self_exit", "src/self.c")):
         F = P.fn(api, file)
-        sel = seq.Sel(calls={"ABTI_ythread_exit", "ABTI_ythread_exit_to_primary"}, rets=True)
+        sel = _Sel(calls={"ABTI_ythread_exit", "ABTI_ythread_exit_to_primary"}, rets=True)
         n = 0
         for toks, kind, rv, rtxt in seq.sequences(F, sel, max_len=40):
             ex = idx(toks, is_call({"ABTI_ythread_exit", "ABTI_ythread_exit_to_primary"}))
             if kind == "ret" and rv == 0:
                 rep.ob("R5", "%s has no path that returns success without exiting" % api, False,
-                       "returns ABT_SUCCESS without terminating the caller: %s" % show(toks), loc=F.file, site="%s/returns" % api)
+                       "returns ABT_SUCCESS without terminating the caller: %s" % _cshow(F, toks), loc=F.file, site="%s/returns" % api)
             if ex:
                 n += 1
-                args = [F.render(a) for a in F.nodes[toks[ex[0]][-1]]["a"]]
-                rep.ob("R5", "%s reaches the noreturn exit primitive with the calling ULT" % api, kind == "noret", show(toks),
+                rep.ob("R5", "%s reaches the noreturn exit primitive with the calling ULT" % api, kind == "noret", _cshow(F, toks),
                        loc=F.file, site="%s/exits" % api)
         rep.need(n >= 1, "%s never exits" % api)
 
